@@ -28,7 +28,10 @@ use multiaddr::Multiaddr;
 
 use std::{fmt::Debug, sync::Arc, time::Duration};
 
+#[cfg(not(feature = "verif"))]
 pub(crate) mod common;
+#[cfg(feature = "verif")]
+pub mod common;
 #[cfg(feature = "quic")]
 pub mod quic;
 pub mod tcp;
